@@ -1,6 +1,6 @@
 """C07 — resharing keeps the chain's identity and continuity (PARTIAL: DESIGN.md §3 C07, §6)."""
 import glob, json, os
-from .. import core, dkgrun as D
+from .. import core, netreshare, dkgrun as D
 
 ID = "C07"
 MODULE = "DrandProofs.C07"
@@ -8,10 +8,11 @@ THEOREMS = ["Drand.Beacon.Transition." + t for t in [
     "tie_validate_group_transition", "tie_vault_setinfo", "tie_new_chain_info", "tie_transition_new_group", "tie_exec_finish_order",
     "c07_validated_identity", "c07_info_const", "c07_chain_hash_const", "c07_hash_ignores_members", "c07_setinfo_keeps_chain_info",
     "c07_registration", "c07_switch_before", "c07_switch_at", "c07_switch_point", "c07_old_shares_rejected", "c07_left_member_rejected",
-    "c07_failed_keeps_old", "c07_refused_transition_keeps_old",
+    "c07_failed_keeps_old", "c07_refused_transition_keeps_old", "c07_leaver_stop_time_counterexample",
     "c07_terms_pinned", "c07_period_change_refused", "c07_scheme_change_refused", "c07_scheme_unchecked_counterexample",
     "c07_tampered_period_pipeline"]] + \
-    ["Drand.DKG.Pedersen." + t for t in ["c07_newshare_eq_eval", "c07_secret_preserved", "c07_pk_preserved", "c07_new_threshold_signs", "c07_old_share_off_new_poly"]]
+    ["Drand.DKG.Pedersen." + t for t in ["c07_newshare_eq_eval", "c07_secret_preserved", "c07_pk_preserved", "c07_new_threshold_signs", "c07_old_share_off_new_poly"]] + \
+    ["Drand.Net.Reshare." + t for t in ['tie_group_node_lookup', 'tie_broadcast_recipients', 'tie_aggregator_threshold_in_loop', 'tie_transition_skip', 'c03_member_lookup_exact', 'c03_hole_is_not_member', 'c03_admitted_is_member', 'c03_nonmember_index_never_counts', 'c07_old_epoch_never_counts', 'c07_held_members_run', 'c07_beacon_needs_new_members', 'c07_registration_any_time', 'c07_registration_partial', 'c07_switch_any_time', 'c07_switch_partial', 'told_run', 'c07_late_registration_counterexample', 'c07_reshare_step_progress', 'c07_transition_round_produced']]
 TRUSTED = ["Lean 4 kernel; axioms per theorem under coverage.axioms",
            "PedersenSpec (hypothesis): kyber's resharing outputs the Lagrange combination of the dealers' reshaped shares (c07_pk_preserved is proved from that); "
            "agreement of all nodes on the dealer set under arbitrary schedules is sampled by the differential runs only",
@@ -124,6 +125,12 @@ MAX_REPORTS = 3
 def explore(ctx, res):
     res.level = "proof"
     tier = "thorough" if ctx["deep"] else ctx["tier"]
+    if ctx.get("replay") and json.load(open(ctx["replay"])).get("engine") == "net":
+        cov, _ = netreshare.replay_part(ctx, res, json.load(open(ctx["replay"])))
+        res.cov.update(evaluations=sum(cov["ops"].values()), rule="replay of one reshare script of engine net", distribution={"net_reshare": cov})
+        return
+    # what the beacon nodes do around the transition (engine `net`: real Handlers, kyber-made resharing)
+    ncov, nres = netreshare.explore_part(ID, ctx, res)
     corpus = []
     for f in sorted(glob.glob(os.path.join(core.VERIF, "corpus", "C07", "*.json"))):
         corpus.append(("corpus:" + os.path.basename(f), json.load(open(f))["ops"]))
@@ -143,8 +150,9 @@ def explore(ctx, res):
     dist = acc["dist"]
     if dist["reshares_attempted"] and dist["reshares_completed"] == 0:
         raise core.Broken("harness:dkgrun", "no reshare completed on any node: the runs say nothing about the property")
-    res.cov.update(evaluations=acc["evals"], distinct_nontrivial=len(acc["nontriv"]), traces_validated_against_impl=acc["validated"],
-                   samples=acc["samples"], distribution=dist)
+    dist["net_reshare"] = ncov
+    res.cov.update(evaluations=acc["evals"] + sum(ncov["ops"].values()), distinct_nontrivial=len(acc["nontriv"]) + sum(1 for r in nres if r.get("res")),
+                   traces_validated_against_impl=acc["validated"] + ncov["validated_against_model"], samples=acc["samples"], distribution=dist)
     res.cov["rule"] = ("reshare scripts on 3-4 (thorough: 3-6) real dkg.Process instances: same set, +1, -1, replace, threshold up/down, an aborted and a failed reshare in "
                        "between, 2-4 epochs, completion before/after/across a round boundary, and a leader proposing a changed period / scheme; after each reshare the "
                        "identity fields (public key, chain hash, genesis time, seed, period, scheme, id) of every completing node are compared with the previous group, "
@@ -152,6 +160,10 @@ def explore(ctx, res):
                        "validateGroupTransition is applied to single-field perturbations; evaluations = ops run and judged (epochs, hand-overs, transition validations); "
                        "non-trivial = distinct (scheme, shape, size, threshold, epoch) / hand-over traces / validation outcomes; traces_validated = ops whose answers "
                        "the Lean model reproduced")
+    res.cov["rule"] += ("; plus engine `net` (vlib/netreshare.py): real beacon.Handlers across a resharing made with kyber polynomials — threshold raised / lowered, a new group "
+                        "with a hole in its share indices, joiner needed for the new threshold, TransitionNewGroup called early or late (after transition-1 is stored), leavers "
+                        "that keep signing with old shares; oracles: liveness under the group in force, switch point, no old-share / non-member partial let in from the "
+                        "transition on, one public key for the whole chain")
     res.cov["level_note"] = ("partial: share algebra, identity under validateGroupTransition, switch point and admission are proved; agreement on the dealer set under "
                              "all schedules is PedersenSpec, sampled")
 
